@@ -46,6 +46,33 @@ pub fn run(out: &mut Out, thorough: bool) {
             out.check(&format!("{}/other-signer-key", tag), "proof_verify", inp.clone(), false, &[], || p.proof_verify(&cpk, kp2.public_key(), &bases, &rev, &u, n));
             out.check(&format!("{}/other-bases", tag), "proof_verify", inp.clone(), false, &[], || p.proof_verify(&cpk, pk, &bases2, &rev, &u, n));
             out.check(&format!("{}/other-commitment-key", tag), "proof_verify", inp.clone(), false, &[], || p.proof_verify(&cpk2, pk, &bases, &rev, &u, n));
+            // single-field edits of the public statement: every component of the signer key, the commitment key and the bases is bound
+            for f in ["N", "b", "c"] {
+                let mut jpk = jv(pk);
+                let x = get_int(at(&jpk, &format!("/{}", f))) + 2;
+                set(&mut jpk, &format!("/{}", f), int_json(&x));
+                let pk_e: zkryptium::cl03::keys::CL03PublicKey = from_jv(&jpk);
+                out.check(&format!("{}/signer-key-field/{}+2", tag, f), "proof_verify", vec![format!("pk.{} + 2", f)], false, &["statement-edit"], || p.proof_verify(&cpk, &pk_e, &bases, &rev, &u, n));
+            }
+            {
+                let jc = jv(&cpk);
+                let mut cpaths = Vec::new();
+                int_paths(&jc, "", &mut cpaths);
+                for cp in cpaths {
+                    let mut t = jc.clone();
+                    let x = get_int(at(&jc, &cp)) + 2;
+                    set(&mut t, &cp, int_json(&x));
+                    let cpk_e: CL03CommitmentPublicKey = from_jv(&t);
+                    // a base of a REVEALED position other than g_0 enters no equation the verifier checks for this statement
+                    let unused = cp.starts_with("/g_bases/") && { let k: usize = cp["/g_bases/".len()..].parse().unwrap_or(0); k != 0 && !u.contains(&k) };
+                    out.check(&format!("{}/commitment-key-field{}+2", tag, cp), "proof_verify", vec![format!("commitment_pk{} + 2", cp)], false, if unused { &["statement-edit", "unused-field"] } else { &["statement-edit"] }, || p.proof_verify(&cpk_e, pk, &bases, &rev, &u, n));
+                }
+                for k in 0..n {
+                    let mut b2 = bases.clone();
+                    b2.0[k] += 2;
+                    out.check(&format!("{}/base-{}+2", tag, k), "proof_verify", vec![format!("a_bases[{}] + 2", k)], false, &["statement-edit"], || p.proof_verify(&cpk, pk, &b2, &rev, &u, n));
+                }
+            }
             for u2 in subsets(n, true) {
                 if u2 != u && (thorough || u2.len() == u.len()) {
                     let rev2 = pick(&m, &complement(n, &u2));
@@ -167,6 +194,31 @@ pub fn wire(out: &mut Out, thorough: bool) {
                 }
                 out.push(&format!("{}/dictionary/m[{}]", tag, i0), "serde_json(PoKSignature)", vec!["two candidate values, proof + public parameters only".into()],
                     if identified { "accept".into() } else { "reject".into() }, &["expect-reject", "dictionary"]);
+            }
+            // direct recomputation from a single integer field and the public challenge: for every hidden attribute m (and e) and every
+            // integer leaf x of the proof, none of  x == m,  x == m*c,  x == m*(1 + c),  floor(x / c) == m,  floor(x / (1 + c)) == m  may hold
+            // for EVERY hidden position (the dictionary attack with two candidates then identifies the value)
+            {
+                let ch = get_int(at(&j, "/CL03/spok/challenge"));
+                let mut leaves = Vec::new();
+                int_paths(&j, "", &mut leaves);
+                let mut recovered: Vec<String> = vec![];
+                for (sname, sx) in &secrets {
+                    if *sx == 0 {
+                        continue;
+                    }
+                    for lp in &leaves {
+                        let x = get_int(at(&j, lp));
+                        let c1: Integer = ch.clone() + 1;
+                        let hit = x == *sx || x == sx.clone() * &ch || x == sx.clone() * &c1
+                            || (ch > 0 && x.clone().div_rem_floor(ch.clone()).0 == *sx) || x.clone().div_rem_floor(c1.clone()).0 == *sx;
+                        if hit {
+                            recovered.push(format!("{} from {}", sname, lp));
+                        }
+                    }
+                }
+                out.push(&format!("{}/single-field-recomputation", tag), "serde_json(PoKSignature)", vec![recovered.join("; ")],
+                    if recovered.is_empty() { "reject".into() } else { "accept".into() }, &["expect-reject", "dictionary"]);
             }
         }
     }
